@@ -112,16 +112,24 @@ func (p *readPolicy) Decide(s *sched.Sim, op sched.Op) sched.Decision {
 	// there must fail the build, never be answered from the built-in copy
 	for p := range m.ws.SuppliedWKT {
 		if strings.HasSuffix(op.Path, ":"+p) && s.Tape.Draw("wktfault?", 2) == 1 {
-			m.faultBudget--
-			return sched.Decision{Fault: kinds[0]}
+			return m.inject(s, kinds[0])
 		}
 	}
 	v := s.Tape.Draw("fault?", m.faultRate)
 	if v == 0 || v > len(kinds) {
 		return sched.Decision{}
 	}
-	m.faultBudget--
-	return sched.Decision{Fault: kinds[v-1]}
+	return m.inject(s, kinds[v-1])
+}
+
+// inject returns a fault decision. Once a read has failed the compiler aborts its other tasks
+// through a context; who notices first is a race inside the code under test, so from here on
+// this execution is left to the runtime: no further faults, no draws, not hashed. (Its result
+// is still checked.)
+func (m *bsim) inject(s *sched.Sim, kind string) sched.Decision {
+	m.faultBudget = 0
+	s.FIFO, s.Unhashed = true, true
+	return sched.Decision{Fault: kind}
 }
 
 // buildModuleSet constructs the module set over instrumented buckets.
@@ -474,6 +482,10 @@ func Run(tp *tape.Tape, env *engine.Env) *engine.Outcome {
 				m.faultRate = tape.Pick(tp, "frate", []int{6, 12, 3})
 				m.faultBudget = 1 + tp.Draw("fbudget", 2)
 			}
+		}
+		if m.cancelAt > 0 && !ambient {
+			// cancellation races with everything in flight: this execution is left to the runtime too
+			s.FIFO, s.Unhashed = true, true
 		}
 		if ambient {
 			// fewer workers than compile tasks: which tasks hold protocompile's semaphore is the Go
